@@ -103,6 +103,24 @@ func wsFollowCases(seed int64, tier string) []fw.Case {
 	return cs
 }
 
+// closeOnce: the bundled log client must not be closed from two goroutines at
+// once (its close message is an ordinary, unsynchronised write)
+var wsCloseMu sync.Mutex
+var wsClosed = map[*client.LogClient]bool{}
+
+func closeOnce(lc *client.LogClient) {
+	wsCloseMu.Lock()
+	done := wsClosed[lc]
+	wsClosed[lc] = true
+	if len(wsClosed) > 4096 {
+		wsClosed = map[*client.LogClient]bool{lc: true}
+	}
+	wsCloseMu.Unlock()
+	if !done {
+		_ = lc.CloseChannel()
+	}
+}
+
 type wsCollector struct {
 	mu    sync.Mutex
 	lines []string
@@ -184,7 +202,7 @@ func runWsFollow(c fw.Case) fw.Result {
 					if sp.Mode == "disconnect" {
 						go func() {
 							time.Sleep(2 * time.Millisecond)
-							_ = lc.CloseChannel()
+							closeOnce(lc)
 						}()
 					}
 				case "stalled":
@@ -293,7 +311,7 @@ func runWsFollow(c fw.Case) fw.Result {
 		checkFollowerSeq(fmt.Sprintf("other follower %d (next to a %s follower)", i, sp.Mode), o.snapshot(), lastK, true, &r)
 	}
 	for _, lc := range logClients {
-		_ = lc.CloseChannel()
+		closeOnce(lc)
 	}
 	if len(r.Findings) > 0 && r.Witness == nil {
 		r.Witness = []string{fmt.Sprintf("spec %+v", sp), fmt.Sprintf("main follower received %d lines", len(main.snapshot()))}
